@@ -171,6 +171,9 @@ Definition getSignatureAlgorithmFromAI_model (oid : list N) (pss : option N) : N
     end.
 
 (* func checkSignature(algo, signed, signature, publicKey): the scheme it verifies under.
+   (The signature bytes themselves are outside this model; since c7e548c the EC branch additionally
+   demands that they are exactly the DER encoding SEQUENCE { r, s } - exercised by the arithmetic
+   signature mutants of the driver.)
    Err 10 insecure algorithm, 11 unsupported algorithm / key *)
 Definition checkSignature_model (algo : N) (k : vkey) : outcome scheme :=
   if existsb (fun x => x =? algo) gen_checksig_refused then Err 10
